@@ -7,6 +7,7 @@ import (
 	"fmt"
 	"io"
 	"sort"
+	"strconv"
 	"strings"
 
 	"git.metabarcoding.org/obitools/obitools4/obitools4/pkg/obiformats"
@@ -38,7 +39,10 @@ type fileShape struct {
 	NoFinalNL bool // last line without end-of-line
 	PlusID    bool // fastq: '+' line repeats the identifier
 	JSONHead  bool // fasta/fastq: annotations as a JSON header
+	OBIHead   bool // fasta/fastq: annotations as "key=value;" pairs (the historical OBITools header)
 }
+
+func (sh fileShape) hasHead() bool { return sh.JSONHead || sh.OBIHead }
 
 type fileCase struct {
 	Shape fileShape
@@ -62,6 +66,42 @@ func jsonHeader(r Rec) string {
 		parts = append(parts, fmt.Sprintf("%q:%s", k, b))
 	}
 	return "{" + strings.Join(parts, ",") + "}"
+}
+
+// obiHeader renders the annotations as the historical OBITools header: key=value; pairs, maps
+// with single-quoted keys.
+func obiHeader(r Rec) string {
+	if len(r.Annot) == 0 {
+		return ""
+	}
+	keys := make([]string, 0, len(r.Annot))
+	for k := range r.Annot {
+		keys = append(keys, k)
+	}
+	sort.Strings(keys)
+	parts := []string{}
+	for _, k := range keys {
+		var v string
+		switch x := r.Annot[k].(type) {
+		case map[string]int:
+			mk := make([]string, 0, len(x))
+			for kk := range x {
+				mk = append(mk, kk)
+			}
+			sort.Strings(mk)
+			items := []string{}
+			for _, kk := range mk {
+				items = append(items, fmt.Sprintf("'%s': %d", kk, x[kk]))
+			}
+			v = "{" + strings.Join(items, ", ") + "}"
+		case float64:
+			v = strconv.FormatFloat(x, 'f', -1, 64)
+		default:
+			v = fmt.Sprint(x)
+		}
+		parts = append(parts, k+"="+v+";")
+	}
+	return strings.Join(parts, " ")
 }
 
 func fold(s string, w int) []string {
@@ -92,6 +132,11 @@ func renderFile(fc *fileCase) {
 			head := r.ID
 			if sh.JSONHead {
 				if h := jsonHeader(r); h != "" {
+					head += " " + h
+				}
+			}
+			if sh.OBIHead {
+				if h := obiHeader(r); h != "" {
 					head += " " + h
 				}
 			}
@@ -188,7 +233,12 @@ func genFile(t *simrt.Tape, maxRecs int, big bool) *fileCase {
 	sh.NoFinalNL = t.Choose(5) == 4
 	sh.Fold = []int{60, 0, 1, 7, 80, 13}[t.Choose(6)]
 	sh.PlusID = t.Choose(3) == 2
-	sh.JSONHead = t.Choose(2) == 1
+	switch t.Choose(3) {
+	case 1:
+		sh.JSONHead = true
+	case 2:
+		sh.OBIHead = true
+	}
 	lo, hi := 1, 75
 	if sh.Format >= fmGenbank {
 		lo, hi = 1, 130
@@ -210,8 +260,28 @@ func genFile(t *simrt.Tape, maxRecs int, big bool) *fileCase {
 				r.Taxid = []int{9606, 3899, 45372, 9615, 2}[t.Choose(5)]
 			}
 			fc.Sci = append(fc.Sci, sciNames[t.Choose(len(sciNames))])
-		} else if !sh.JSONHead {
+		} else if !sh.hasHead() {
 			r.Annot = nil
+		} else {
+			// value types a header can carry beyond integers and words
+			if t.Choose(3) == 2 {
+				if r.Annot == nil {
+					r.Annot = map[string]any{}
+				}
+				r.Annot["score"] = []float64{0.5, 0.25, 1.5, 12.75, -0.125, 3.0625}[t.Choose(6)]
+			}
+			if t.Choose(4) == 3 {
+				if r.Annot == nil {
+					r.Annot = map[string]any{}
+				}
+				r.Annot["merged_sample"] = map[string]int{"a": 1 + t.Choose(3), "b2": 1 + t.Choose(9)}
+			}
+			if t.Choose(5) == 4 {
+				if r.Annot == nil {
+					r.Annot = map[string]any{}
+				}
+				r.Annot["flag"] = t.Choose(2) == 1
+			}
 		}
 	}
 	renderFile(fc)
@@ -242,8 +312,12 @@ func (fc *fileCase) expectView(i int, parsed bool) string {
 		return fmt.Sprintf("id=%s|seq=%s|q=%s|def=%s|annot=%s", r.ID, r.Seq, q, r.Def, jsonHeader(r))
 	}
 	def := r.Def
-	if fc.Shape.JSONHead {
-		if h := jsonHeader(r); h != "" {
+	if fc.Shape.hasHead() {
+		h := jsonHeader(r)
+		if fc.Shape.OBIHead {
+			h = obiHeader(r)
+		}
+		if h != "" {
 			if def != "" {
 				def = h + " " + def
 			} else {
@@ -749,8 +823,9 @@ func runC01(rc *RunCtx) {
 	if format >= fmGenbank || cfg.Stage == 0 {
 		cfg.Parsed = false
 	}
-	if cfg.Parsed && !fc.Shape.JSONHead {
-		// only JSON headers have an unambiguous expected annotation set in this harness
+	if cfg.Parsed && !fc.Shape.hasHead() {
+		// a title line without an annotation header: the definition is free text, and what
+		// the guessing parser makes of free text is not stated anywhere
 		cfg.Parsed = false
 	}
 	data := fc.Text
